@@ -55,6 +55,9 @@ def to_source(case):
             return val(o[1:])
         if "+q" in o:
             return o[0] + "+" + val(o[3:])
+        if o[0] == "r" and SPELL[0] is not None and SPELL[0].random() < 0.25:
+            # the register through its .def alias (the sequence programs define q0..q31 = r0..r31), in any letter case
+            return SPELL[0].choice(["q%s", "Q%s"]) % o[1:]
         return o
     return "  %s %s" % (m, ", ".join(conv(o) for o in ops.split(",")))
 
@@ -137,7 +140,8 @@ def run_sequences(res):
     seqs = sequences(rng, pool, 150 if res.tier == "quick" else 20000)
     cases = list(dict.fromkeys(c for _, parts in seqs for c, _ in parts if c))
     spec = {r[0]: r[3] for r in encrun.run_cases(vh, exe, cases)}
-    texts = ["\n".join(lines) + "\n" for lines, _ in seqs]
+    prelude = "".join(".def q%d = r%d\n" % (i, i) for i in range(32))
+    texts = [prelude + "\n".join(lines) + "\n" for lines, _ in seqs]
     obs = P.correspond(res, vh, exe, texts, "instruction-sequence programs")
     for (lines, parts), t in zip(seqs, texts):
         want = "".join(spec[c] if c else h for c, h in parts)
